@@ -82,7 +82,7 @@ def run(tier, seed):
     tag = "c19s%d" % seed
     for i in range(n):
         k = rng.choice(["prefix-symbol-then-conflict", "prefix-name-then-conflict", "anon-then-named-prefix", "define-dup-name", "define-dup-symbol", "define-space", "alias-conflict-symbol",
-                        "alias-space", "alias-dup-name", "derive-dup", "prefix-dup-symbol", "named-ok", "derive-ok", "lookup-then-define", "lookup-name-then-symbol"])
+                        "alias-space", "alias-dup-name", "derive-dup", "prefix-dup-symbol", "named-ok", "derive-ok", "lookup-then-define", "lookup-name-then-symbol", "rederive-new-symbol", "rederive-taken-symbol", "scale-other-dimension", "scale-dup-symbol"])
         u = "%s_%d" % (tag, i)
         code = {
             "anon-then-named-prefix": "import measured\nb = {b}\nanon = measured.Prefix(b, {e})\np = measured.Prefix(b, {e}, name='{u}n', symbol='{u}s')\nok = p is anon and measured.Prefix._by_name.get('{u}n') is p and measured.Prefix._by_symbol.get('{u}s') is p and p.name == '{u}n' and p.symbol == '{u}s'\n",
@@ -99,6 +99,12 @@ def run(tier, seed):
             # a name/symbol is bound to the object declared with it even if the same text was looked up (and resolved another way) before
             "lookup-then-define": "import measured\nbase = measured.Unit.define(measured.Length, '{u}base', '{u}q')\nearly = measured.Unit.resolve_symbol('m{u}q')\nnew = measured.Unit.define(measured.Length, '{u}new', 'm{u}q')\nok = measured.Unit.resolve_symbol('m{u}q') is new and measured.Unit._by_symbol['m{u}q'] is new and early is not new and not faithful()\n",
             "lookup-name-then-symbol": "import measured\nfirst = measured.Unit.define(measured.Length, '{u}w', '{u}ws')\nearly = measured.Unit.resolve_symbol('{u}w')\nother = measured.Unit.define(measured.Length, '{u}o', '{u}os')\nother.alias(symbol='{u}w')\nok = early is first and measured.Unit.resolve_symbol('{u}w') is other and not faithful()\n",
+            # declaring again under a name the unit already has: the new symbol is bound (or the call fails and changes nothing)
+            "rederive-new-symbol": "import measured\nanon = ns['Meter']**{e2} / ns['Second']**{e3}\nmeasured.Unit.derive(anon, '{u}', '{u}s1')\nmeasured.Unit.derive(anon, '{u}', '{u}s2')\nok = measured.Unit._by_symbol.get('{u}s2') is anon and '{u}s2' in anon.symbols and measured.Unit.resolve_symbol('{u}s2') is anon and not faithful()\n",
+            "rederive-taken-symbol": "import measured\nanon = ns['Meter']**{e2} / ns['Second']**{e3}\nmeasured.Unit.derive(anon, '{u}', '{u}s1')\nbefore = snapshot()\ntry:\n    measured.Unit.derive(anon, '{u}', 's')\n    raised = False\nexcept ValueError:\n    raised = True\nok = raised and snapshot() == before and measured.Unit.resolve_symbol('s') is ns['Second']\n",
+            # Dimension.scale defines a unit and then its zero point: whatever makes the call fail, nothing may stay registered
+            "scale-other-dimension": "import measured\nbefore = snapshot()\ntry:\n    measured.Temperature.scale({e2} * ns['Meter'], '{u}', '{u}')\n    raised = False\nexcept Exception:\n    raised = True\nok = (not raised and measured.Unit._by_name['{u}'].name == '{u}') or (raised and snapshot() == before)\n",
+            "scale-dup-symbol": "import measured\nbefore = snapshot()\ntry:\n    measured.Temperature.scale({e2} * ns['Kelvin'], '{u}', 'K')\n    raised = False\nexcept ValueError:\n    raised = True\nok = raised and snapshot() == before\n",
             "named-ok": "import measured\nanon = ns['Meter']**{e2} / ns['Second']**{e3}\nmeasured.Unit.derive(anon, '{u}', '{u}')\nok = measured.Unit._by_name['{u}'] is anon and measured.Unit._by_symbol['{u}'] is anon and '{u}' in anon.names and not faithful()\n",
             "derive-ok": "import measured\nd = measured.Length**{e2} / measured.Time**{e3}\nwas = d.name\ntry:\n    measured.Dimension.derive(d, '{u}')\n    ok = measured.Dimension._by_name['{u}'] is d and d.name == '{u}'\nexcept ValueError:\n    ok = was is not None and was != '{u}'\nok = ok and not faithful()\n",
         }[k].format(u=u, b=rng.choice([3, 5, 7, 11]), e=rng.choice([-9, -7, 5, 8, 13]) + i * 17, e2=17 + i, e3=23 + i)
@@ -119,7 +125,7 @@ def run(tier, seed):
             samples.append(code.splitlines()[1:4])
     return {"evaluations": evals, "distinct": len(distinct) + 2, "failures": failures[:8], "samples": samples,
             "rule": "registry faithfulness of all shipped declarations (names/symbols <-> objects, every named Prefix(...) declaration in the source), "
-                    "plus random scenarios of 15 kinds (anonymous-then-named, failing define/alias/derive/prefix calls in each argument position with "
+                    "plus random scenarios of 19 kinds (anonymous-then-named, failing define/alias/derive/prefix calls in each argument position with "
                     "registry snapshots before and after); distinct = scenario kinds", "bound": "%d scenarios" % n}
 
 
